@@ -292,6 +292,6 @@ def run(ctx):
     # ---- remote messages: adversarial-peer runs (real mpi.c on a fake MPI library, rank 1 played by a hostile but legal peer):
     # every remote event / anti-message / early anti-message / free-at-GVT decision re-executed; exactly-once oracle on the
     # committed stream of remote events (independent of the Lean model)
-    pagg = runlib.peer_matrix(ctx, 40, 400, salt=6)
+    pagg = runlib.peer_matrix(ctx, 90, 500, salt=6)
     if pagg:
         ctx.coverage["remote_messages"] = ctx.coverage.pop("peer_mode")
